@@ -646,6 +646,11 @@ class BaseRequest(MutableMapping[str | RequestKey[Any], Any], HeadersMixin):
 
             if start is None and end is not None:
                 # end with no start is to return tail of content
+                if end == 0:
+                    # https://www.rfc-editor.org/rfc/rfc9110#section-14.1.3
+                    # a suffix-length of zero is unsatisfiable (and -0 would
+                    # otherwise select the whole representation)
+                    raise ValueError("suffix length cannot be zero")
                 start = -end
                 end = None
 
